@@ -61,3 +61,35 @@ Proof.
   exact (conj A (conj B C)).
 Qed.
 Print Assumptions C11_final_positions_columns.
+
+(* ---- map(): the whole well-formedness clause, both column settings ---- *)
+From RS Require Import Api.ApiTree.
+From RS Require Proofs.WfAllStrict Proofs.WfAllMap Proofs.WfAllChk.
+
+(* the decoded segments of the returned map are STRICTLY increasing, every one lies on a position of
+   source() strictly before its end, on a line >= 1, all indices are inside the returned tables and
+   the mappings string is over the alphabet (hypothesis: encoder domain, fields below 2^30) *)
+Theorem C11_map_wf : forall st st' s cols m,
+  RStreamTree.rshape s = true -> treeA s = true -> RStreamTree.rsmall s = true ->
+  forallb mapping_small (chunk_mappings (fst (fst (stream st s (mkOpts cols true))))) = true ->
+  get_map st s cols = (Some m, st') ->
+  sorted_by pos_lt (decode_mappings (sm_mappings m)) = true /\
+  Forall (WfAllMap.seg_inside (source s)) (decode_mappings (sm_mappings m)) /\
+  tables_clause m = true /\ alphabet_clause m = true.
+Proof. exact WfAllMap.get_map_wf. Qed.
+Print Assumptions C11_map_wf.
+
+(* the extracted checker accepts the model's own observations of every tree over Raw* / Original /
+   SourceMapSource / Concat / Replace outside the known-finding class K1, and inside K1 it answers
+   0 or the K1 code - never anything else *)
+Theorem C11_checker_accepts_model : forall s ws,
+  RStreamTree.rshape s = true -> treeA s = true -> RStreamTree.rsmall s = true -> k1_shape s = false ->
+  WfAllChk.enc_small [] s -> chk_C11 s (api_tree s ws) = 0.
+Proof. intros s ws. exact (WfAllChk.chk_C11_tree_warm s ws). Qed.
+Print Assumptions C11_checker_accepts_model.
+
+Theorem C11_checker_k1_class : forall s,
+  RStreamTree.rshape s = true -> treeA s = true -> k1_shape s = true ->
+  chk_C11 s (api_tree s []) = 0 \/ chk_C11 s (api_tree s []) = 51.
+Proof. exact WfAllChk.chk_C11_tree_k1. Qed.
+Print Assumptions C11_checker_k1_class.
